@@ -337,7 +337,10 @@ class Engine(TorchDispatchMode):
         self.solver.push()
         for x in extra:
             self.solver.add(x)
-        r = self.solver.check()
+        try:
+            r = self.solver.check()
+        except z3.Z3Exception:       # (memory cap reached)
+            r = z3.unknown
         m = self.solver.model() if r == z3.sat else None
         self.solver.pop()
         self.t_solver += time.time() - t0
